@@ -172,8 +172,7 @@ def deliver(msgs, full_by_uuid, what):
         raise Violation(("parser_raised", {"exc": type(e).__name__}),
                         "%s: Parser.incomplete_tasks raised %s: %s" % (what, type(e).__name__, str(e)[:300]))
     for t in rest:
-        nodes = list(t._nodes.values())
-        u = nodes[0].task_uuid
+        u = t.root().task_uuid
         if u in incomplete or u in returned:
             raise Violation(("completion_timing", {"how": "twice"}), "%s: task %s yielded twice" % (what, u))
         if t.is_complete():
@@ -249,7 +248,7 @@ def oracle(rc):
         try:
             for t in Parser.parse_stream(feed()):
                 streamed.append(t)
-                u = next(iter(dict(t._nodes).values())).task_uuid
+                u = t.root().task_uuid
                 if t.is_complete() and consumed[0] != last_at.get(u):
                     raise Violation(("stream_timing", {"dir": "late" if consumed[0] > last_at.get(u, 0) else "early"}),
                                     "%s: parse_stream yielded task %s after consuming %d messages; its last message "
